@@ -131,7 +131,7 @@ def run_case(case):
             models.append(MapModel(aw, 8, 0, label=f"L{lv}M{len(lives) - 1}"))
             level.append(lv)
     used_as_window = set()
-    st = {"prefix_refusal": False, "sibling_accept": False, "keep": [], "hook_names": []}
+    st = {"prefix_refusal": False, "sibling_accept": False, "keep": [], "hook_names": [], "retry": None}
 
     def snapshot(t):
         # align_to(0) reports the placement cursor without moving it (the maps here have alignment 0)
@@ -181,17 +181,34 @@ def run_case(case):
             if not cands:
                 break
             t = rng.choice(cands)
+            # a refused window is grown and then offered again to the same parent (same name form): whatever either map
+            # remembers from the refused attempt must not outlive it
+            forced, plan = None, st["retry"]
+            if plan is not None and rng.random() < 0.5:
+                pt, pc, pname, stage = plan
+                if stage == 0 and pc in cands:
+                    t, st["retry"] = pc, (pt, pc, pname, 1)
+                    forced = "grow"
+                elif stage == 1 and pt in cands and pc not in used_as_window:
+                    t, st["retry"] = pt, None
+                    forced = "retry"
+                    mon.count("refused_windows_grown_and_offered_again")
+                else:
+                    st["retry"] = None
             m, mm = lives[t], models[t]
             before = snapshot(t)
-            do_win = level[t] > 0 and rng.random() < 0.45
-            if do_win:
+            do_win = level[t] > 0 and rng.random() < (0.8 if forced == "grow" else 0.45)
+            if do_win or forced == "retry":
                 kids = [c for c in range(len(lives)) if level[c] < level[t] and
                         (c not in used_as_window or (rng.random() < 0.25 and id(lives[c]) not in models[t].keys))]
-                if not kids:
-                    do_win = False
+                if forced == "retry":
+                    kids = [pc]
+                do_win = bool(kids)
             if do_win:
                 c = rng.choice(kids)
-                name = None if rng.random() < 0.5 else gen_name(rng)
+                name = None if rng.random() < (0.8 if forced == "grow" else 0.5) else gen_name(rng)
+                if forced == "retry":
+                    name = pname
                 why = f"{mm.label}.add_window({models[c].label} names={sorted(models[c].names, key=repr)}, name={name!r})"
                 mon.log(why)
                 waddr = None
@@ -233,6 +250,9 @@ def run_case(case):
                     used_as_window.add(c)
                 else:
                     mon.eq("atomic", snapshot(c), before_c, f"{why}: refused but changed the window map")
+                    if raised is not None and forced is None and c not in used_as_window and st["retry"] is None \
+                            and not models[c].frozen:
+                        st["retry"] = (t, c, name, 0)
             else:
                 r = Res() if rng.random() < 0.7 else EqRes(rng.choice(["uart", "timer"]))
                 st["keep"].append(r)
